@@ -12,7 +12,7 @@ Decided (DESIGN C08):
 Not decided: numeric ownership, run length, bounded file growth (value level).
 """
 from ..interp import Program, short, POLL_NAMES
-from ..critsec import check_then_act, scan_increment, run_pairs
+from ..critsec import check_then_act, scan_increment, run_pairs, run_contiguity
 from ..guard import Deps
 from ..facts import AnalysisError
 
@@ -132,7 +132,17 @@ def run(ctx, rep):
     # C08.5
     rep.rule('C08.5', 'when the allocator restarts a run (count := 0) the start of the returned run is re-established before the count grows again')
     rp = run_pairs(f, P)
-    rep.floor('run restarts in the allocator', len(rp), 1)
+    rep.rule('C08.8', 'a run returned as (start, count) grows by a further piece only after that piece was compared with the end of the run (pieces of one run are adjacent)')
+    rc = run_contiguity(f, P)
+    rep.floor('increments of a returned run count inside a loop', len(rc), 1)
+    for (fn, where, ok, detail) in rc:
+        rep.ob('C08.8', '%s increment at %s' % (fn, where), ok, detail)
+        if not ok:
+            rep.violation('C08.8', 'C08.8:%s' % fn, where,
+                          '%s: %s: pieces that are not adjacent are returned as one contiguous run, the clusters between them belong '
+                          'to other owners and are mapped, zeroed and overwritten' % (fn, detail))
+    if not rc or all(ok for _f, _w, ok, _d in rc):
+        rep.floor('run restarts in the allocator', len(rp), 1)
     for (fn, where, ok, detail) in rp:
         rep.ob('C08.5', '%s restart at %s' % (fn, where), ok, detail)
         if not ok:
